@@ -30,6 +30,8 @@ def cmp_key(v):
         return ["method", id(v.__func__)]
     if inspect.isfunction(v) or inspect.isbuiltin(v) or inspect.isclass(v) or inspect.ismodule(v):
         return ["identity", id(v)]
+    if isinstance(v, (int, float)) and not isinstance(v, bool) or isinstance(v, bool):
+        return ["num", repr(float(v))]  # Python number equality: 2 == 2.0 == True + 1
     # plain Python equality semantics: dicts (and the key index of keyed containers) ignore insertion order
     if isinstance(v, dict):
         return ["dict", sorted(([cmp_key(k), cmp_key(x)] for k, x in v.items()), key=repr)]
